@@ -25,7 +25,9 @@ Record xsys := mkX {
   x_evend : bool;                                (* ev:end already reported *)
   x_cf : sconf; x_srv : sstate; x_c2s : bytes; x_s2c : bytes;
   x_wp : bool;                                   (* the peer does not read: writes block *)
-  x_wh : bytes                                   (* the write the loop task is blocked in *)
+  x_wh : bytes;                                  (* the write the loop task is blocked in *)
+  x_evq : bool;                                  (* the application does not poll ConnectionEvents for now *)
+  x_evh : list bytes                             (* events delivered to the channel but not polled yet *)
 }.
 
 (* one trace segment under construction *)
@@ -34,25 +36,28 @@ Definition seg0 : seg := mkSeg [] [] [] [] false.
 
 Definition set_pt (x : xsys) (p : point) (el : N) : xsys :=
   mkX (x_h x) (x_pw x) (x_client x) (x_failed x) p (x_spawned x) (x_buf x) (x_bst x) (x_inbox x) (x_eof x) (x_rerr x)
-      (x_wfail x) (x_queue x) (x_callers x) (x_handle x) el (x_evend x) (x_cf x) (x_srv x) (x_c2s x) (x_s2c x) (x_wp x) (x_wh x).
+      (x_wfail x) (x_queue x) (x_callers x) (x_handle x) el (x_evend x) (x_cf x) (x_srv x) (x_c2s x) (x_s2c x) (x_wp x) (x_wh x) (x_evq x) (x_evh x).
 Definition set_conn (x : xsys) (buf : bytes) (st : bstate) (inbox : bytes) : xsys :=
   mkX (x_h x) (x_pw x) (x_client x) (x_failed x) (x_pt x) (x_spawned x) buf st inbox (x_eof x) (x_rerr x)
-      (x_wfail x) (x_queue x) (x_callers x) (x_handle x) (x_elapsed x) (x_evend x) (x_cf x) (x_srv x) (x_c2s x) (x_s2c x) (x_wp x) (x_wh x).
+      (x_wfail x) (x_queue x) (x_callers x) (x_handle x) (x_elapsed x) (x_evend x) (x_cf x) (x_srv x) (x_c2s x) (x_s2c x) (x_wp x) (x_wh x) (x_evq x) (x_evh x).
 Definition set_qc (x : xsys) (q : list request) (cs : list (N * ckind)) : xsys :=
   mkX (x_h x) (x_pw x) (x_client x) (x_failed x) (x_pt x) (x_spawned x) (x_buf x) (x_bst x) (x_inbox x) (x_eof x) (x_rerr x)
-      (x_wfail x) q cs (x_handle x) (x_elapsed x) (x_evend x) (x_cf x) (x_srv x) (x_c2s x) (x_s2c x) (x_wp x) (x_wh x).
+      (x_wfail x) q cs (x_handle x) (x_elapsed x) (x_evend x) (x_cf x) (x_srv x) (x_c2s x) (x_s2c x) (x_wp x) (x_wh x) (x_evq x) (x_evh x).
 Definition set_h (x : xsys) (h : hpoint) (client failed spawned : bool) : xsys :=
   mkX h (x_pw x) client failed (x_pt x) spawned (x_buf x) (x_bst x) (x_inbox x) (x_eof x) (x_rerr x)
-      (x_wfail x) (x_queue x) (x_callers x) (x_handle x) (x_elapsed x) (x_evend x) (x_cf x) (x_srv x) (x_c2s x) (x_s2c x) (x_wp x) (x_wh x).
+      (x_wfail x) (x_queue x) (x_callers x) (x_handle x) (x_elapsed x) (x_evend x) (x_cf x) (x_srv x) (x_c2s x) (x_s2c x) (x_wp x) (x_wh x) (x_evq x) (x_evh x).
 Definition set_flags (x : xsys) (eof rerr wfail handle evend : bool) : xsys :=
   mkX (x_h x) (x_pw x) (x_client x) (x_failed x) (x_pt x) (x_spawned x) (x_buf x) (x_bst x) (x_inbox x) eof rerr
-      wfail (x_queue x) (x_callers x) handle (x_elapsed x) evend (x_cf x) (x_srv x) (x_c2s x) (x_s2c x) (x_wp x) (x_wh x).
+      wfail (x_queue x) (x_callers x) handle (x_elapsed x) evend (x_cf x) (x_srv x) (x_c2s x) (x_s2c x) (x_wp x) (x_wh x) (x_evq x) (x_evh x).
 Definition set_w (x : xsys) (wp : bool) (wh : bytes) : xsys :=
   mkX (x_h x) (x_pw x) (x_client x) (x_failed x) (x_pt x) (x_spawned x) (x_buf x) (x_bst x) (x_inbox x) (x_eof x) (x_rerr x)
-      (x_wfail x) (x_queue x) (x_callers x) (x_handle x) (x_elapsed x) (x_evend x) (x_cf x) (x_srv x) (x_c2s x) (x_s2c x) wp wh.
+      (x_wfail x) (x_queue x) (x_callers x) (x_handle x) (x_elapsed x) (x_evend x) (x_cf x) (x_srv x) (x_c2s x) (x_s2c x) wp wh (x_evq x) (x_evh x).
+Definition set_ev (x : xsys) (q : bool) (h : list bytes) : xsys :=
+  mkX (x_h x) (x_pw x) (x_client x) (x_failed x) (x_pt x) (x_spawned x) (x_buf x) (x_bst x) (x_inbox x) (x_eof x) (x_rerr x)
+      (x_wfail x) (x_queue x) (x_callers x) (x_handle x) (x_elapsed x) (x_evend x) (x_cf x) (x_srv x) (x_c2s x) (x_s2c x) (x_wp x) (x_wh x) q h.
 Definition set_net (x : xsys) (srv : sstate) (c2s s2c : bytes) : xsys :=
   mkX (x_h x) (x_pw x) (x_client x) (x_failed x) (x_pt x) (x_spawned x) (x_buf x) (x_bst x) (x_inbox x) (x_eof x) (x_rerr x)
-      (x_wfail x) (x_queue x) (x_callers x) (x_handle x) (x_elapsed x) (x_evend x) (x_cf x) srv c2s s2c (x_wp x) (x_wh x).
+      (x_wfail x) (x_queue x) (x_callers x) (x_handle x) (x_elapsed x) (x_evend x) (x_cf x) srv c2s s2c (x_wp x) (x_wh x) (x_evq x) (x_evh x).
 
 (* ---------- canonical printing (same format as harness/src/loopcases.rs) ---------- *)
 
@@ -183,8 +188,9 @@ Definition route (x : xsys) (g : seg) (o : cout) : xsys * seg :=
     | Some k => caller_result x g id k None
     | None => (x, g)
     end
-  | OEvent n => (x, add_ev g (b "ev:" ++ hex n))
-  | OClosed k => (x, add_ev g (b "ev:closed(" ++ show_closekind k ++ b ")"))
+  | OEvent n => if x_evq x then (set_ev x true (x_evh x ++ [b "ev:" ++ hex n]), g) else (x, add_ev g (b "ev:" ++ hex n))
+  | OClosed k => let t := b "ev:closed(" ++ show_closekind k ++ b ")" in
+                 if x_evq x then (set_ev x true (x_evh x ++ [t]), g) else (x, add_ev g t)
   | OPanic => (x, set_panic g)
   end.
 
@@ -382,7 +388,7 @@ Definition sort_res (l : list (N * bytes)) : list (N * bytes) := fold_right inse
 
 Definition show_seg (x : xsys) (g : seg) : bytes * xsys :=
   let exited := x_spawned x && match x_pt x with PExited => true | _ => false end in
-  let evend := x_client x && exited && negb (x_evend x) in
+  let evend := x_client x && exited && negb (x_evend x) && negb (x_evq x) in
   let dropped := exited || x_failed x in
   let parts :=
       (match g_w g with [] => [] | w => [b "w:" ++ hex w] end) ++
@@ -456,6 +462,10 @@ Definition apply_label (x : xsys) (lab : bytes) : option bytes * xsys * option b
     else if kind =? 119 then run_op lab (set_flags x (x_eof x) (x_rerr x) true (x_handle x) (x_evend x)) seg0
     else if kind =? 104 then run_op lab (set_flags x (x_eof x) (x_rerr x) (x_wfail x) false (x_evend x)) seg0
     else if kind =? 112 then run_op lab (set_w x true (x_wh x)) seg0          (* p: the peer stops reading *)
+    else if kind =? 107 then run_op lab x seg0                                (* k<n>: bytes per write call; the bytes on the wire are the same *)
+    else if kind =? 113 then run_op lab (set_ev x true (x_evh x)) seg0         (* q: ConnectionEvents is not polled *)
+    else if kind =? 81 then                                                    (* Q: polled again: everything queued comes out *)
+      run_op lab (set_ev x false []) (mkSeg [] [] [] (x_evh x) false)
     else if kind =? 117 then                                                   (* u: it reads again; the blocked write completes *)
       let x1 := set_w (set_net x (x_srv x) (x_c2s x ++ x_wh x) (x_s2c x)) false [] in
       run_op lab x1 (add_w seg0 (x_wh x))
@@ -507,7 +517,7 @@ Definition run_loopm (args : list bytes) : bytes :=
               | _ => None
               end in
     let x0 := mkX HGreeting pw false false PIdle false [] Initial [] false false false [] [] true 0 false
-                  (parse_conf conf) s0 [] greeting_bytes false [] in
+                  (parse_conf conf) s0 [] greeting_bytes false [] false [] in
     let '(x1, g1) := settle 100 x0 seg0 in
     let '(t0, x2) := show_seg x1 g1 in
     let '(ops, segs) := run_labels x2 labs [] [t0] in
